@@ -246,6 +246,7 @@ func run(c *eng.Ctx, mem bool) error {
 			keys[i] = fmt.Sprintf("%02x%062x", rng.Intn(256), i+1)
 			kname[keys[i]] = fmt.Sprintf("k%d", i+1)
 		}
+		badKey := fmt.Sprintf("ab%0300x", 7) // 302 characters: no file system here stores such a component
 		cfg := map[string]any{"cap": int(capv), "mem": mem}
 		if mem {
 			ms, err := memory.NewStore(&memory.Config{CapacityBytes: capv, GOMEMLIMITBytes: 8 << 30}, tally.NoopScope)
@@ -317,6 +318,17 @@ func run(c *eng.Ctx, mem bool) error {
 			if len(script) > 0 {
 				k, sc, op, forceSuf = scriptKey, storelib.BlobScopeAny, script[0].op, script[0].suf
 				script = script[1:]
+			}
+			if !mem && len(script) == 0 && forceSuf < 0 && rng.Intn(12) == 0 {
+				// Create of a name the file system refuses (one path component longer than NAME_MAX): room is made first,
+				// then the directory cannot be created; the reservation must be handed back in full (BlobStore.tla CreateBad).
+				sz := uint64(rng.Intn(int(capv) + 2))
+				f, err := s.Create(badKey, sz)
+				if err == nil {
+					f.Close()
+				}
+				ev("CreateBad", "sz", int(sz), "res", Classify(err))
+				continue
 			}
 			switch {
 			case op < 18: // Create (+ write the content pattern through the returned handle)
